@@ -353,6 +353,12 @@ KERNELS = [
     ('FreeSrc_safe_call_hpp', 'include/yaclib/util/detail/safe_call.hpp', None, None, None, None, 'text'),
     ('FreeSrc_unique_job_hpp', 'include/yaclib/exe/detail/unique_job.hpp', None, None, None, None, 'text'),
     ('FreeSrc_submit_hpp', 'include/yaclib/exe/submit.hpp', None, None, None, None, 'text'),
+    # C02: callback classification (the spelling of a parameter must not matter) / C05: Share carries the executor
+    ('TraitSrc_type_traits_impl_hpp', 'include/yaclib/util/detail/type_traits_impl.hpp', None, None, None, None, 'text'),
+    ('TraitSrc_type_traits_hpp', 'include/yaclib/util/type_traits.hpp', None, None, None, None, 'text'),
+    ('ShareSrc_share_hpp', 'include/yaclib/async/share.hpp', None, None, None, None, 'text'),
+    ('ShareSrc_split_hpp', 'include/yaclib/async/split.hpp', None, None, None, None, 'text'),
+    ('ShareSrc_connect_hpp', 'include/yaclib/async/connect.hpp', None, None, None, None, 'text'),
     # C02: the Result algebra (Model/ResultAlg.lean)
     ('ResultSrc_result_hpp', 'include/yaclib/util/result.hpp', None, None, None, None, 'text'),
     ('Task_ThenOn', None, ['yaclib/lazy/task.hpp'], 'yaclib::Task', 'lazy/task.hpp', 'Then', 0),
@@ -378,6 +384,7 @@ KERNELS = [
     # ---- shared core: callback list + reference counter (C06)
     ('SharedCore_Retire', None, ['yaclib/algo/detail/shared_core.hpp'], 'yaclib::detail::SharedCore', 'shared_core.hpp', 'Retire', 0),
     ('SharedCore_Here', None, ['yaclib/algo/detail/shared_core.hpp'], 'yaclib::detail::SharedCore', 'shared_core.hpp', 'Here', 0),
+    ('SharedCore_Next', None, ['yaclib/algo/detail/shared_core.hpp'], 'yaclib::detail::SharedCore', 'shared_core.hpp', 'Next', 0),
     ('SharedCore_SetCallback', None, ['yaclib/algo/detail/shared_core.hpp'], 'yaclib::detail::SharedCore', 'shared_core.hpp', 'SetCallback', 0),
     ('SharedCore_SetInline', None, ['yaclib/algo/detail/shared_core.hpp'], 'yaclib::detail::SharedCore', 'shared_core.hpp', 'SetInline', 'template'),
     ('SharedCore_SetResult', None, ['yaclib/algo/detail/shared_core.hpp'], 'yaclib::detail::SharedCore', 'shared_core.hpp', 'SetResult', 'template'),
@@ -394,6 +401,10 @@ KERNELS = [
     ('SharedPromise_Set', None, ['yaclib/async/shared_promise.hpp'], 'yaclib::SharedPromise', 'async/shared_promise.hpp', 'Set', 'template'),
     ('SharedPromise_dtor', None, ['yaclib/async/shared_promise.hpp'], 'yaclib::SharedPromise', 'async/shared_promise.hpp', '~SharedPromise<V, E>', 0),
     ('MakeSharedContract', None, ['yaclib/async/shared_contract.hpp'], 'yaclib::MakeSharedContract', 'async/shared_contract.hpp', 'MakeSharedContract', 'template'),
+    ('MakeSharedContractOn', None, ['yaclib/async/shared_contract.hpp'], 'yaclib::MakeSharedContract', 'async/shared_contract.hpp', 'MakeSharedContractOn', 'template'),
+    ('Split', None, ['yaclib/async/split.hpp'], 'yaclib::Split', 'async/split.hpp', 'Split', 'template'),
+    ('Share', None, ['yaclib/async/share.hpp'], 'yaclib::Share', 'async/share.hpp', 'Share', 'template'),
+    ('SharedFutureOn_On', None, ['yaclib/async/shared_future.hpp'], 'yaclib::SharedFutureOn', 'async/shared_future.hpp', 'On', 0),
     ('SharedHandle_SetCallback', None, ['yaclib/algo/detail/base_core.hpp'], 'yaclib::detail::SharedHandle', 'base_core.hpp', 'SetCallback', 0),
     ('AtomicCounter_Add', None, ['yaclib/util/detail/atomic_counter.hpp'], 'yaclib::detail::AtomicCounter', 'atomic_counter.hpp', 'Add', 0),
     ('AtomicCounter_Sub', None, ['yaclib/util/detail/atomic_counter.hpp'], 'yaclib::detail::AtomicCounter', 'atomic_counter.hpp', 'Sub', 0),
